@@ -273,12 +273,12 @@ CHECKS = {
         "assumptions": [
             "the published rules as transcribed in c07/template.rs from the RULES constants and <x>_script.py files (pandas Holiday semantics)",
             "Gregorian computus and civil-date arithmetic are the definitions used by the rules",
-            "extraction by regular expressions in vxlib/c07.py (any entry of unexpected shape aborts the run as undecided)",
+            "extraction by regular expressions in vxlib/c07.py (any entry of unexpected shape aborts the run as undecided); validated end to end on every run: the calendar objects that get_calendar_by_name builds at run time agree with the extracted tables on every day 1970-2200 (is_holiday on Monday-Friday, is_bus_day on every day) - native exhaustive sweep `vx-replay calsweep`",
             "holiday tables are read as sets, as Cal::new does (IndexSet::from_iter): the extractor sorts them and drops repeated entries before the verified checker sees them",
         ],
         "uncovered": [
             "tro/tyo/syd/wlg/mum: only the plain documented fixed-date and Easter-linked holidays are checked (one direction), as the property states",
-            "chrono's parser for the fixed \"%Y-%m-%d %H:%M:%S\" strings is not part of the check (the extractor parses the same fixed shape itself)",
+            "is_holiday on Saturdays / Sundays is not constrained (the property speaks about weekdays and business days)",
         ],
     },
 }
